@@ -17,7 +17,7 @@ RULE = ("alias chains over one register: bounded-exhaustive over register sizes 
 ASSUMPTIONS = ["model arithmetic on declarations (vf/meaning.py core_from_sx + Evaluator.elems)",
                "zero steps and out-of-range slices are not generated here (C14)"]
 TIERS = {"quick": {"shards": 8, "budget_s": 120}, "thorough": {"shards": 16, "budget_s": 600}}
-REQUIRE = {"consumer:resolution-in-context": 300, "invalid-reference:consumers-observed": 1000, "chain-with-slice-counting-down": 500, "references-checked": 2000, "consumer:resolve_qubit": 2000, "consumer:fill_in_map": 2000,
+REQUIRE = {"consumer:whole-register-argument": 5000, "consumer:resolution-in-context": 300, "invalid-reference:consumers-observed": 1000, "chain-with-slice-counting-down": 500, "references-checked": 2000, "consumer:resolve_qubit": 2000, "consumer:fill_in_map": 2000,
            "consumer:used_qubits": 2000, "consumer:emulator": 1000, "consumer:pygsti": 500, "style:let": 200, "style:override": 200,
            "style:default": 200, "depth>=2": 500, "position:macro-arg": 200, "position:macro-body": 200, "position:macro-index": 200, "position:single-in-shadowing-macro": 200}
 
@@ -393,6 +393,33 @@ def judge(case):
                 fails.append(("context-resolution-wrong:used_qubits", {"expected": {regname: [k]}, "got": got, "parameter": pname,
                                                                         "parameter-named-like-a-let": pname in lets_now}))
                 break
+    # (7) a whole register or alias handed to a gate (a register-typed parameter): the analysis must name exactly the qubits
+    #     that indexing it element by element reaches
+    try:
+        from jaqalpaq.core import GateDefinition, Parameter, ParamType
+
+        core_m = M.core_from_sx(prog)
+        ev = M.Evaluator(core_m, env=ov, resolve=True)
+        wdef = GateDefinition("Wreg", [Parameter("r", ParamType.REGISTER)])
+        for circ, tag in ((ce, "lets-filled"), (c, "lets-symbolic")):
+            if tag == "lets-symbolic" and ov:
+                continue
+            for rname, robj in circ.registers.items():
+                if not hasattr(robj, "resolve_size") or rname not in core_m.regs or core_m.regs[rname][0] != "R":
+                    continue
+                want = [e[2] for e in ev.elems(core_m.regs[rname], {})]
+                o = lib.outcome(lambda: [robj.resolve_qubit(i)[1] for i in range(int(robj.resolve_size()))])
+                if o[0] != "ok" or o[1] != want:
+                    fails.append(("whole-register-elements-wrong:%s" % tag, {"register": rname, "expected": want, "got": str(o[1:3])[:120]}))
+                    break
+                o = lib.outcome(lib.used_qubits, wdef(robj))
+                got = {a: set(b) for a, b in dict(o[1]).items() if b} if o[0] == "ok" else str(o[1:3])[:120]
+                info["whole"] = info.get("whole", 0) + 1
+                if got != {regname: set(want)}:
+                    fails.append(("used_qubits-wrong:whole-register-argument:%s" % tag, {"register": rname, "expected": sorted(want), "got": str(got)[:160]}))
+                    break
+    except M.MeaningError:
+        pass
     # (5) pyGSTi label
     lab = pygsti_label()
     if callable(lab):
@@ -537,6 +564,7 @@ def process(ctx, case, feats):
     rec.count("consumer:emulator", info["emu"])
     rec.count("consumer:pygsti", info["gsti"])
     rec.count("consumer:resolution-in-context", info.get("ctx", 0))
+    rec.count("consumer:whole-register-argument", info.get("whole", 0))
     rec.count("consumer:resolve_qubit:macros-expanded-before-lets", info.get("ml", 0))
     if "gsti_unavailable" in info:
         rec.note("pygsti_unavailable", info["gsti_unavailable"])
